@@ -91,7 +91,8 @@ template<class T, int TR = 0> struct ledger_alloc {
 		auto it = ledger().blocks.find(p);
 		if(it == ledger().blocks.end()) { soft("C08:deallocate-unknown-block", "deallocate of a pointer that is not an outstanding block (double free or foreign pointer), n=" + std::to_string(n)); return; }
 		if(it->second.bytes != n * sizeof(T)) soft("C08:deallocate-size-mismatch", "block allocated with " + std::to_string(it->second.n) + " elements is deallocated with n=" + std::to_string(n));
-		if(!is_always_equal::value && it->second.id != id) soft("C10:foreign-deallocate", "block produced by allocator #" + std::to_string(it->second.id) + " released through allocator #" + std::to_string(id));
+		if(!is_always_equal::value && it->second.id != id) { soft("C10:foreign-deallocate", "block produced by allocator #" + std::to_string(it->second.id) + " released through allocator #" + std::to_string(id));
+			soft("C08:block-never-returned-to-its-allocator", "allocator #" + std::to_string(it->second.id) + " never gets back a block it issued (it is handed to allocator #" + std::to_string(id) + ", which did not issue it)"); }
 		ledger().bytes_out -= long(it->second.bytes); ledger().blocks.erase(it); ++ledger().n_dealloc; ::operator delete(p);
 	}
 	friend bool operator==(ledger_alloc const& a, ledger_alloc const& b) { return is_always_equal::value || a.id == b.id; }
